@@ -6,6 +6,8 @@
 -/
 import Gzx.Gen.C03Tables
 import Gzx.Model.OneD
+import Gzx.Proofs.UpceanRead
+import Gzx.Proofs.OneDCodabar
 namespace Gzx.Obligations.C03
 open Gzx Gzx.OneD
 
@@ -97,5 +99,30 @@ theorem gen_codabar_wf :
 theorem gen_upcean_wf :
     let L := natListList Gen.C03Tables.lPatterns
     L.length = 10 ∧ L.all (fun p => p.length = 4 ∧ sumN p = 7 ∧ p.all (0 < ·)) = true ∧ (lAndG L).Nodup := by decide
+
+/-- the UPC/EAN tables exactly as regenerated from /repo (everything else from `refTables`) -/
+def genUpcEanTables : Tables :=
+  { refTables with
+    lPatterns := natListList Gen.C03Tables.lPatterns
+    startEnd := natList Gen.C03Tables.startEndPattern
+    middle := natList Gen.C03Tables.middlePattern
+    upceEnd := natList Gen.C03Tables.endPattern
+    upceMiddleEnd := natList Gen.C03Tables.upceMiddleEndPattern
+    firstDigit := natList Gen.C03Tables.ean13FirstDigit
+    upceParity := natListList Gen.C03Tables.upceParity }
+
+/-- the hypothesis of `upcean_read_write` / `upcean_read_write_rendered` holds for the tables /repo has now:
+    L patterns 4 positive widths summing to 7, the twenty L/G patterns pairwise distinct, guards positive with
+    odd / odd / even run counts, reader's UPC-E end pattern = writer's, parity words distinct and below 64 -/
+theorem gen_upcean_wf_read : WFUpcEan genUpcEanTables = true := by decide +kernel
+
+/-- guard widths the quiet-zone hypotheses are stated with: 3 modules (start, end), 6 (UPC-E end) -/
+theorem gen_upcean_guard_widths :
+    OneD.sumL genUpcEanTables.startEnd = 3 ∧ OneD.sumL (endGuardOf genUpcEanTables .ean13) = 3 ∧
+    OneD.sumL (endGuardOf genUpcEanTables .upce) = 6 := by decide
+
+/-- the hypotheses of `codabar_read_write` for the table /repo has now (alphabet: `gen_codabar_is_standard`) -/
+theorem gen_codabar_wf_read :
+    WFCodabar { refTables with codabarEnc := natList Gen.C03Tables.codabarEncodings } = true := by decide
 
 end Gzx.Obligations.C03
